@@ -102,3 +102,72 @@ Section WithMerge.
     apply value_eqb_true. apply map_update_view; auto.
   Qed.
 End WithMerge.
+
+(* ---- close / reopen (C04) ------------------------------------------------- *)
+Section Reopen.
+  Variable fm : bytes -> value -> bytes -> value.
+  Notation sget := (sget fm).
+  Notation llv := (llv fm).
+  Notation run := (run fm).
+  Notation ref_from := (ref_from fm).
+
+  Lemma ref_from_ext m1 m2 h k : (forall k, m1 k = m2 k) -> ref_from m1 h k = ref_from m2 h k.
+  Proof.
+    intros H. rewrite !ref_from_sget. apply sget_ext. apply H.
+  Qed.
+
+  (* what the store holds once collection and store are closed: the lower
+     level last published, or - when a persistence round was in flight -
+     that plus the base it was persisting (any legal choice of append /
+     compaction) *)
+  Inductive store_at_close (s : cstate) : llsnap -> Prop :=
+  | SAC_published : store_at_close s (ll s)
+  | SAC_inflight b ch l' :
+      base s = Some b -> store_persist fm ch b (ll s) = Some l' -> store_at_close s l'.
+
+  (* C04: whenever Close happens, the directory holds the reference content
+     after some prefix of the executed batches - never a mixture. *)
+  Theorem close_leaves_prefix c l0 ls s l' :
+    run c (init l0) ls = Some s -> closed s = false -> store_at_close s l' ->
+    exists n, n <= length (batches ls) /\
+              forall k, llv l' k = ref_from (llv l0) (firstn n (batches ls)) k.
+  Proof.
+    intros Hr Hc Hs.
+    destruct (run_grun fm c (init l0) 0 ghost0 ls s Hr) as [g Hg].
+    pose proof (grun_pinv fm c l0 ls s g Hg Hc) as HP.
+    destruct (p_ord _ _ _ _ _ HP) as [Hab [Hbd Hdh]].
+    destruct Hs as [|b ch l' Hb Hp].
+    - exists (ga g). split; [lia|]. apply (p_ll _ _ _ _ _ HP).
+    - exists (gb g). split; [lia|]. intros k.
+      rewrite (store_persist_view fm ch b (ll s) l' k Hp).
+      pose proof (p_base _ _ _ _ _ HP k) as H. rewrite Hb in H. exact H.
+  Qed.
+
+  (* C04: once nothing is dirty (persistence has caught up) the directory
+     holds exactly the reference content of all executed batches. *)
+  Theorem caught_up_close_is_complete c l0 ls s :
+    run c (init l0) ls = Some s -> closed s = false -> dirty_segments s = 0 ->
+    forall k, llv (ll s) k = ref_from (llv l0) (batches ls) k.
+  Proof. apply drained_lower_level_is_reference. Qed.
+
+  (* any number of close/reopen cycles: each session starts from what the
+     previous one left in the directory *)
+  Inductive cycles (c : cfg) : llsnap -> list (list segment) -> llsnap -> Prop :=
+  | Cy_nil l : cycles c l [] l
+  | Cy_cons l ls s l' n hs lf :
+      run c (init l) ls = Some s -> closed s = false -> store_at_close s l' ->
+      n <= length (batches ls) ->
+      (forall k, llv l' k = ref_from (llv l) (firstn n (batches ls)) k) ->
+      cycles c l' hs lf ->
+      cycles c l (firstn n (batches ls) :: hs) lf.
+
+  Theorem cycles_content c l0 hs lf :
+    cycles c l0 hs lf -> forall k, llv lf k = ref_from (llv l0) (concat hs) k.
+  Proof.
+    induction 1 as [l|l ls s l' n hs lf Hr Hc Hs Hn Hl Hcy IH]; intros k; simpl.
+    - reflexivity.
+    - rewrite IH. unfold Collection.ref_from. rewrite fold_left_app.
+      fold (ref_from (llv l) (firstn n (batches ls))).
+      apply ref_from_ext. apply Hl.
+  Qed.
+End Reopen.
